@@ -345,3 +345,59 @@ Definition case_known_comma (c : case) : bool :=
 Definition case_known_newline (c : case) : bool :=
   let '(g, recs, o) := c in
   valid g 0 recs && negb (C12_ok g 0 recs (snd o)) && sig_newline_rows g 0 recs.
+
+(* ------------------------------------------------------------------------- *)
+(** * trace-level consistency of the Job ID column                             *)
+(* ------------------------------------------------------------------------- *)
+
+(** [subs]: the successful submissions seen at the scheduler adapter since the
+    study started, oldest first, as (node, job number) -- an observable of the
+    adapter, not of the records.  The adapter hands the job identifier
+    [str(job number)] back to maestrowf. *)
+Definition subs_of (subs : list (nat * nat)) (x : nat) : list nat :=
+  map snd (filter (fun p => Nat.eqb (fst p) x) subs).
+
+Definition last_sub (subs : list (nat * nat)) (x : nat) : option nat :=
+  fold_left (fun acc p => if Nat.eqb (fst p) x then Some (snd p) else acc) subs None.
+
+Definition job_str (j : nat) : str := dec (N.of_nat j).
+
+Definition jobid_cell (o : option nat) : str :=
+  match o with Some j => job_str j | None => s "--" end.
+
+(** THE TRACE-LEVEL MONITOR.  In the table the status command got back, the row
+    of every instance shows, as Job ID, the identifier the scheduler returned
+    for that instance's LAST successful submission -- "--" when there was none. *)
+Definition job_column_ok (g : graph) (src : nat) (recs : list rec) (subs : list (nat * nat))
+           (parsed : presult) : bool :=
+  match parsed with
+  | PTable t =>
+    let rows := table_rows t (col_len t) in
+    forallb (fun k => existsb (fun r => str_eqb (nth 0 r []) (r_name (rec_of recs k))
+                                        && str_eqb (nth 1 r []) (jobid_cell (last_sub subs k))) rows)
+            (instances g src)
+  | _ => false
+  end.
+
+(** the coupling between records and adapter trace that the execution model
+    maintains (Status/Consist.v proves it of every poll sequence) *)
+Definition jobs_coupled (g : graph) (src : nat) (recs : list rec) (subs : list (nat * nat)) : bool :=
+  forallb (fun k => strs_eqb (r_jobids (rec_of recs k)) (map job_str (subs_of subs k)))
+          (instances g src).
+
+(** a poll of an execution history: the case, and the submissions so far *)
+Definition hcase : Type := (case * list (nat * nat))%type.
+
+(** the monitor part: [C12_ok] and the trace-level Job ID column, on the
+    implementation's table *)
+Definition hcase_monitor (h : hcase) : bool :=
+  let '((g, recs, o), subs) := h in
+  case_monitor (g, recs, o)
+  && impb (valid g 0 recs && H12_rows g 0 recs) (job_column_ok g 0 recs subs (snd o)).
+
+(** ... plus agreement of the model with the implementation (text, dictionary)
+    and of the implementation's records with the adapter trace *)
+Definition hcase_ok (h : hcase) : bool :=
+  let '((g, recs, o), subs) := h in
+  case_agrees (g, recs, o) && hcase_monitor h
+  && impb (valid g 0 recs && H12_rows g 0 recs) (jobs_coupled g 0 recs subs).
